@@ -49,6 +49,11 @@ type stringerT struct{ s string }
 
 func (x stringerT) String() string { return x.s }
 
+// a value whose only text form is encoding.TextMarshaler (no String, no Error): the text formats print the marshalled text
+type textMarshT struct{ s string }
+
+func (x textMarshT) MarshalText() ([]byte, error) { return []byte(x.s), nil }
+
 type structT struct {
 	A int
 	B string
@@ -80,6 +85,8 @@ func (v GVal) Go() any {
 		return v.S
 	case "stringer":
 		return stringerT{v.S}
+	case "textm": // corpus of the text formats (logfmt and colour) only: an encoding.TextMarshaler
+		return textMarshT{v.S}
 	case "level":
 		return slog.Level(v.I)
 	case "error":
@@ -209,7 +216,7 @@ func (v GVal) Coq() string {
 	switch v.Kind {
 	case "nil":
 		return "VNil"
-	case "string", "stringer":
+	case "string", "stringer", "textm": // (textm occurs in the text formats only: quoted like a string since /repo 71337b7)
 		return "(VStr " + cStr(v.S) + ")"
 	case "level":
 		return "(VStr " + cStr(levelName(v.I)) + ")"
